@@ -1,3 +1,4 @@
+import TemplVerif.Generated.Skeletons
 import TemplVerif.Model.Handler
 import TemplVerif.Generated.HandlerFacts
 /-
@@ -57,5 +58,17 @@ theorem C11_wiring_pinned :
        -- http.Error(w, componentHandlerErrorMessage, http.StatusInternalServerError)
        [104, 116, 116, 112, 46, 69, 114, 114, 111, 114, 40, 119, 44, 32, 99, 111, 109, 112, 111, 110, 101, 110, 116, 72, 97, 110, 100, 108, 101, 114, 69, 114, 114, 111, 114, 77, 101, 115, 115, 97, 103, 101, 44, 32, 104, 116, 116, 112, 46, 83, 116, 97, 116, 117, 115, 73, 110, 116, 101, 114, 110, 97, 108, 83, 101, 114, 118, 101, 114, 69, 114, 114, 111, 114, 41]] ∧
     Generated.handlerErrorMessage = errorMessage := by decide
+
+-- BEGIN transcription pins (written by tools/mkpins.py)
+/-- T1, transcription pins: the control structure and calls (extract/skeleton.go) of the functions whose models
+    were written by hand are the ones the models were transcribed from:
+      handler.go ComponentHandler.ServeHTTP
+      handler.go ComponentHandler.ServeHTTPBuffered
+    A change of what one of them calls or how it branches breaks this theorem; the check then searches for a
+    failing input and reports either that or `no-failing-input-found`. -/
+theorem C11_transcription_pinned :
+    Generated.skel_handler_ServeHTTP = 1725087716964111337 ∧
+    Generated.skel_handler_ServeHTTPBuffered = 6609026193402378884 := by decide
+-- END transcription pins
 
 end TemplVerif.Props.C11
